@@ -391,10 +391,13 @@ Definition spec_ok (o : op) (out : list Z) : bool :=
           match osalt with
           | None => negb (code =? 0)%Z
           | Some salt =>
-              if data_before_error r && (Z.of_nat (length (filter (fun c => negb (length c =? 0)%nat) (r_chunks r)) + 2) <=? wb)%Z then
-                (code =? 0)%Z &&
-                list_eqb written (header ++ salt ++ std_ctr (evp_key s salt) (evp_iv s salt) (r_data r))
-              else negb (code =? 0)%Z                                  (* failing reader / writer: an error, no panic *)
+              if data_before_error r then
+                if (Z.of_nat (length (r_data r)) + 2 <=? wb)%Z then     (* a writer that accepts enough writes *)
+                  (code =? 0)%Z &&
+                  list_eqb written (header ++ salt ++ std_ctr (evp_key s salt) (evp_iv s salt) (r_data r))
+                else if (wb <? 2)%Z then negb (code =? 0)%Z             (* the header cannot be written: an error *)
+                else true
+              else negb (code =? 0)%Z                                  (* failing reader: an error, no panic *)
           end
       | _ => false
       end
